@@ -35,7 +35,7 @@ func (a Arch) String() string {
 	switch {
 	case wild && a.ABI == a.CPU && a.OS == a.CPU:
 		return a.CPU
-	case !wild && !strings.Contains(a.CPU, "-") && a.OS == "linux" && a.ABI == "gnu":
+	case !wild && a.CPU != "" && !strings.Contains(a.CPU, "-") && a.OS == "linux" && a.ABI == "gnu":
 		return a.CPU
 	case !strings.Contains(a.CPU, "-") && a.ABI == "any":
 		return a.OS + "-" + a.CPU
